@@ -1,6 +1,6 @@
 (* Proofs about Model/Liquidity.v: characterising "effect" lemmas of the leaf transitions.  Later proofs
    use these instead of unfolding the handlers. *)
-From Comdex Require Import Lib.Base Lib.DecArith Lib.DecFacts Model.Liquidity Proofs.LiquidityProofs Proofs.LiquiditySweep.
+From Comdex Require Import Lib.Base Lib.DecArith Lib.DecFacts Model.Liquidity Proofs.LiquidityProofs Proofs.LiquidityBase.
 From Coq Require Import ZifyBool Lia.
 
 (* the indicator of "account c, denom d'" *)
